@@ -15,7 +15,7 @@ import (
 )
 
 // Watchdog is the bound on any single operation that the properties say completes.
-const Watchdog = 20 * time.Second
+const Watchdog = 45 * time.Second
 
 // NewAgent builds a session record the way the listener code does after a
 // registration request was parsed (only the fields the event code reads).
